@@ -15,7 +15,7 @@ func init() {
 		Title: "Allow headers tell the truth about which methods are routable",
 		Decided: "C17.a the OPTIONS filter answers OPTIONS itself (no ProcessFilter on that branch) and passes every other method on exactly once without touching headers; C17.b Allow and Access-Control-Allow-Methods carry one and the same list, computed for this request; " +
 			"C17.c the 405 Allow list is built from the methods of the path-matching candidates (before the method filter), de-duplicated by whole-string equality; C17.d the allowed-methods computation and the JSR311 route selection accept a route on the same condition (its expression matches the remainder left by the service expression, and the final group is empty or '/') and read services and routes through the locking accessors; the choice of service is compared too (known finding: all matching services are accumulated); " +
-			"C17.e the allowed methods are recomputed from the live tables on every call (no cache or other store). C17.f = C02.l; C17.g the accessor behind computeAllowedMethods reads the field the dispatcher routes on; C17.h every addition to the candidates that is made under a test of Route.Method is made under equality with the request's method (a route admitted under another test is routable for a method neither Allow computation lists).",
+			"C17.e the allowed methods are recomputed from the live tables on every call (no cache or other store). C17.i a loop that collects Route.Method values has no branch decided by a variable carried over from earlier iterations; C17.f = C02.l; C17.g the accessor behind computeAllowedMethods reads the field the dispatcher routes on; C17.h every addition to the candidates that is made under a test of Route.Method is made under equality with the request's method (a route admitted under another test is routable for a method neither Allow computation lists).",
 		NotDecided: "equality of the three method sets in general (regex templates, If conditions, Curly-only template forms): a relation between the results of three computations on runtime data.",
 		Rules: []Rule{
 			{ID: "C17.a", Template: "T-ONCE", Required: true, Run: ruleC17a,
@@ -32,6 +32,8 @@ func init() {
 				Doc: "computeAllowedMethods runs the compiled path expressions against the decoded URL.Path while the default router compares template tokens: the expressions must be compiled from the template literals unchanged (same obligations as C02.l), or OPTIONS announces nothing for a routable URL whose template has a character an escaper rewrites."},
 			{ID: "C17.g", Template: "T-SIBLING", Required: true, Run: ruleServiceListAgreement,
 				Doc: "The accessor through which computeAllowedMethods reads the services reads the same Container field the dispatcher hands to the router. A separately maintained snapshot that Remove (or Add) does not refresh makes OPTIONS announce methods of services that are gone."},
+			{ID: "C17.i", Template: "T-EFFECT", Required: false, Run: ruleMethodLoopStateless,
+				Doc: "The methods of a URL are collected route by route: in a loop that adds Route.Method values to a list no branch reads a variable carried over from earlier iterations. A 'most specific template so far' that resets the list makes OPTIONS (and the CORS preflight default) name fewer methods than the routers serve at that URL."},
 			{ID: "C17.h", Template: "T-SIBLING", Required: true, Run: ruleC17h,
 				Doc: "Both Allow computations list the declared Method of the routes of the URL. That is the routable set only as long as the method stage admits a route by whole equality of its declared Method with the request's method: a route admitted under any other test of its Method (GET routes for a HEAD request) is routable for a method that neither the 405 Allow header nor the OPTIONS filter announces."},
 		},
